@@ -7,7 +7,8 @@ driver ops of C12 (prefix `c12.`)
 * roles: comma separated, thread id = position: `wca` writer, body appends its id, commits; `wcr` writer, body resets the
   content to `[id]`, commits; `wra` writer, appends, rolls back; `wcn` writer, changes nothing, "commits" (the code takes
   the rollback path); `rd` reader.  `wwa` = `wca` through `with txn:`; `wxa` = `wra` through an exception in the `with` body;
-  `wda` = `wca` followed by refused second ends; `rdw` = `rd` through `with`.
+  `wda` = `wca` followed by refused second ends; `rdw` = `rd` through `with`; `wcR` / `wrR` = `writer(replacement=True)`,
+  appends its id to the empty version, commits / rolls back.
 * rec: `<tid>:<label>`: one record per *visible* step of the implementation, in execution order
   (`acq rel new.E app.E wait.E set.E pop.E txn+ txn- wev- ver nod rd+ rd- ret rret seen`), plus `<tid>:blk`
   (the thread is blocked in `acquire`/`wait`) and `0:fin`.
@@ -37,6 +38,7 @@ def parseRole (s : String) : Option (Role × Nat) :=
   if s = "wca" ∨ s = "wwa" ∨ s = "wda" then some (.writer true, 0) else if s = "wcr" then some (.writer true, 1)
   else if s = "wxa" then some (.writer false, 0) else if s = "rdw" then some (.reader, 2)
   else if s = "wra" then some (.writer false, 0) else if s = "wcn" then some (.writer false, 2)
+  else if s = "wcR" then some (.writer true, 3) else if s = "wrR" then some (.writer false, 3)
   else if s = "rd" then some (.reader, 2) else none
 
 def mkCfg (rs : List (Role × Nat)) : Cfg :=
@@ -44,7 +46,9 @@ def mkCfg (rs : List (Role × Nat)) : Cfg :=
     body := fun t c => match (rs[t]?).map (·.2) with
       | some 0 => c ++ [t]
       | some 1 => [t]
-      | _ => c }
+      | some 3 => c ++ [t]
+      | _ => c
+    repl := fun t => (rs[t]?).map (·.2) == some 3 }
 
 def parseLabel (s : String) : Option WLabel :=
   match splitOnChar s '.' with
